@@ -352,7 +352,7 @@ class C01(Prop):
                    "scipy chi2_contingency / kruskal are trusted to be monotone images of the exact values"]
 
     def generate(self, rng, tier):
-        n = 260 if tier == "quick" else 5000
+        n = 700 if tier == "quick" else 6000
         return [gen_case(rng) for _ in range(n)]
 
     def search_cases(self, rng, neighbours, rnd):
